@@ -12,7 +12,7 @@ from concurrent.futures import ThreadPoolExecutor
 
 VERIF = os.path.dirname(os.path.dirname(os.path.abspath(__file__)))
 REPO = os.environ.get("VERIF_REPO", "/repo")
-CACHE = os.path.join(VERIF, ".cache")
+CACHE = os.environ.get("VERIF_CACHE", os.path.join(VERIF, ".cache"))
 COQ = os.path.join(VERIF, "coq")
 TARGET = os.path.join(CACHE, "target")
 ORACLE_BUILD = os.path.join(CACHE, "oracle")
@@ -261,10 +261,21 @@ def pin(prop_id, prop_file):
 def build_harness(bin="c11", profile="release", rustflags=None):
     """cargo build of one driver binary of /verif/harness (src/bin/<bin>.rs) against /repo's working tree."""
     h = os.path.join(VERIF, "harness")
+    if REPO != "/repo":
+        # development aid (seeded-defect runs against a scratch worktree): a copy of the harness that depends on REPO
+        import shutil
+        alt = os.path.join(CACHE, "harness_alt")
+        shutil.rmtree(alt, ignore_errors=True)
+        shutil.copytree(h, alt, ignore=shutil.ignore_patterns("target"))
+        for root, _, files in os.walk(alt):
+            for fn in files:
+                if fn.endswith((".toml", ".rs")):
+                    pth = os.path.join(root, fn)
+                    txt = open(pth).read()
+                    if "/repo" in txt:
+                        open(pth, "w").write(txt.replace('"/repo', '"' + REPO))
+        h = alt
     with Lock("cargo"):
-        lock_src = os.path.join(REPO, "Cargo.lock")
-        if os.path.exists(lock_src):
-            write_if_changed(os.path.join(h, "Cargo.lock"), open(lock_src).read())
         cmd = ["cargo", "build", "--offline", "--bin", bin] + (["--release"] if profile == "release" else [])
         env = {"CARGO_TARGET_DIR": TARGET}
         if rustflags:
